@@ -24,6 +24,11 @@ pub fn run_index(prop: &str, seed: u64, thorough: bool, ctx: &Ctx, sink: &mut dy
     let faults = if r.chance(1, 2) { Faults::Some } else { Faults::None };
     match prop {
         "C01" | "C02" | "C04" | "C08" => {
+            if prop == "C04" && r.chance(1, 400) {
+                let c = Case::W8;
+                let res = run_case(&c, ctx);
+                sink(&c, res);
+            }
             let mix = pick_mix(
                 &mut r,
                 &[
@@ -100,6 +105,46 @@ pub fn run_index(prop: &str, seed: u64, thorough: bool, ctx: &Ctx, sink: &mut dy
             let c = Case::W2(gen_w2(seed, f));
             let res = run_case(&c, ctx);
             sink(&c, res);
+        }
+        "C20" => {
+            let n = 2 + r.usize_below(3);
+            let mut scripts = Vec::new();
+            for i in 0..n {
+                let mix = pick_mix(&mut r, &[(Mix::General, 50), (Mix::ResetHeavy, 20), (Mix::LimitHeavy, 10), (Mix::TryWith, 10), (Mix::AllocatorApi, 10)]);
+                let f = if r.chance(1, 3) { Faults::Some } else { Faults::None };
+                let mut s = gen_w1(crate::rng::mix2(seed, i as u64), mix, f);
+                // interleaving is about many short histories
+                s.ops.truncate(40);
+                if r.chance(1, 3) {
+                    // arenas that never obtain memory / only make zero-sized requests
+                    s.ctor = crate::w1_ops::Ctor::New;
+                    s.ops.insert(0, crate::w1_ops::Op::Val { fl: crate::w1_ops::VFl::Alloc, ty: crate::w1_ops::Ty::Unit, seed: 1 });
+                    s.ops.insert(1, crate::w1_ops::Op::Layout { try_: true, size: 0, align: 1 << r.below(5), seed: 2 });
+                }
+                scripts.push(s);
+            }
+            let total: usize = scripts.iter().map(|s| s.ops.len() + 1).sum();
+            let schedule: Vec<u8> = (0..total + 4).map(|_| r.below(n as u64) as u8).collect();
+            let c = Case::W4 { scripts, schedule };
+            let res = run_case(&c, ctx);
+            sink(&c, res);
+        }
+        "C19" => {
+            let c = Case::W6(crate::w67::gen_w6(seed));
+            let res = run_case(&c, ctx);
+            sink(&c, res);
+        }
+        "C18" => {
+            if r.chance(3, 4) {
+                let c = Case::W7(crate::w67::gen_w7(seed));
+                let res = run_case(&c, ctx);
+                sink(&c, res);
+            } else {
+                // chunk_capacity / reuse probes after arbitrary histories
+                let c = Case::W1(gen_w1(seed, Mix::General, faults));
+                let res = run_case(&c, ctx);
+                sink(&c, res);
+            }
         }
         "C16" => {
             // crash-point enumeration: count the callback invocations of the operation, then
@@ -203,6 +248,9 @@ pub fn nontrivial(prop: &str, st: &Stats) -> bool {
         "C12" => g("grow_in_place") + g("grow_relocated_same_chunk") + g("grow_into_new_chunk") + g("shrink_kept_address") + g("shrink_in_place_moved_up") + g("deallocate_reclaimed") >= 1,
         "C13" | "C14" | "C15" | "C17" => g("w2_mirrored_call") >= 2,
         "C16" => g("w3_injected_panic_fired") >= 1,
+        "C20" => g("w4_interleaved_run") >= 1,
+        "C19" => g("w6_impossible_request") >= 1 || g("w6_ok") >= 1,
+        "C18" => g("w7_growth_workload") + g("w7_cap_exact") + g("w7_vec_promise") + g("w7_vec_growth") + g("w7_str_promise") + g("w7_str_growth") + g("cap_probe") + g("reuse_probe_after_ctor") >= 1,
         _ => true,
     }
 }
